@@ -515,3 +515,28 @@ func VerifSortedMapKeys(m map[string]interface{}) []string {
 	sort.Strings(keys)
 	return keys
 }
+
+// VerifFetchRaw writes raw bytes as the page at offset pageSize of a fresh file
+// and reads it back with fileStore.fetch through a cold cache (kind dispatch,
+// decode); a short image is zero-extended by the read, as after a torn write.
+func VerifFetchRaw(path string, raw []byte) (out VerifNode, err error, panicMsg string) {
+	defer func() {
+		if r := recover(); r != nil {
+			panicMsg = fmt.Sprint(r)
+		}
+	}()
+	os.Remove(path)
+	fs, err := newFileStore(path, false)
+	if err != nil {
+		return out, err, ""
+	}
+	defer fs.file.Close()
+	if _, err := fs.file.WriteAt(raw, pageSize); err != nil {
+		return out, err, ""
+	}
+	got, err := fs.fetch(pageSize)
+	if err != nil {
+		return out, err, ""
+	}
+	return verifFromNode(got), nil, ""
+}
